@@ -272,3 +272,14 @@ VARIANTS += [
  V("c30-w1-plain-store-of-link", "C30", "C30.W1", "internal/arenaskl/node.go",
    "	return n.tower[h].prevOffset.CompareAndSwap(old, val)", "	n.tower[h].prevOffset.Store(val)\n	return true"),
 ]
+
+VARIANTS += [
+ V("c42-l1-queue-read-without-lock", "C42", "C42.L1", "db.go",
+   "	d.commit.mu.Lock()\n	defer d.commit.mu.Unlock()\n	d.mu.Lock()\n	defer d.mu.Unlock()\n	flushed := d.mu.mem.queue[len(d.mu.mem.queue)-1].flushed",
+   "	d.commit.mu.Lock()\n	defer d.commit.mu.Unlock()\n	flushed := d.mu.mem.queue[len(d.mu.mem.queue)-1].flushed\n	d.mu.Lock()\n	defer d.mu.Unlock()"),
+ V("c42-l2-lock-order-inverted", "C42", "C42.L2", "db.go",
+   "	d.commit.mu.Lock()\n	defer d.commit.mu.Unlock()\n	d.mu.Lock()\n	defer d.mu.Unlock()\n	flushed := d.mu.mem.queue[len(d.mu.mem.queue)-1].flushed",
+   "	d.mu.Lock()\n	defer d.mu.Unlock()\n	d.commit.mu.Lock()\n	defer d.commit.mu.Unlock()\n	flushed := d.mu.mem.queue[len(d.mu.mem.queue)-1].flushed"),
+ V("c42-l1-snapshot-count-unlocked", "C42", "C42.L1", "db.go",
+   "	d.mu.snapshots.pushBack(s)\n	d.mu.Unlock()\n	return s", "	d.mu.Unlock()\n	d.mu.snapshots.pushBack(s)\n	return s"),
+]
